@@ -72,14 +72,14 @@ class C08(InterpProp):
                 for i in range(len(lst)):
                     lst[i] = 'k%d and (%s)' % (n, lst[i])
                     n += 1
-        sc._preamble = sc.preamble + ''.join('\nk%d = True' % i for i in range(n))
-        self._n = n
+        self._n = n      # the flags k0..k(n-1) are given to the interpreter as its initial context (all True)
 
     def gen_case(self, rnd, tier):
         case = super().gen_case(rnd, tier)
         case.payload['record_old'] = True     # the implementation-side `__old__` channel (oracle 3)
         n = self._n
         ops = case.payload['ops']
+        ops[0][3] = [['k%d' % i, True] for i in range(n)]
         execs = [i for i, op in enumerate(ops) if op[0] == 'exec']
         if n and execs:
             # choose the injection from the baseline run on the implementation: a condition that is
